@@ -131,6 +131,7 @@ pub fn is_mutating(method: &str) -> bool {
             | "copy_file"
             | "move_file"
             | "move_dir"
+            | "handle.write"
     )
 }
 
@@ -215,6 +216,81 @@ impl Wrap {
     }
 }
 
+/// Read / write handles returned through a `Wrap`: every read, write, seek and flush on them is
+/// a call into the wrapped filesystem too (counted, recorded, and failed when the plan says so).
+struct WrapHandle<H> {
+    inner: H,
+    node: String,
+    underlying: bool,
+    path: String,
+    ctl: Arc<Ctl>,
+}
+
+impl<H> WrapHandle<H> {
+    fn pre(&self, method: &'static str) -> std::io::Result<()> {
+        if !self.ctl.armed.load(Ordering::SeqCst) {
+            return Ok(());
+        }
+        let mut injected = false;
+        if self.underlying {
+            let n = self.ctl.calls.fetch_add(1, Ordering::SeqCst) + 1;
+            if n > CALL_HORIZON {
+                self.ctl.runaway.store(true, Ordering::SeqCst);
+                return Err(std::io::Error::new(std::io::ErrorKind::Other, "HARNESS: call horizon exceeded"));
+            }
+            if n == self.ctl.fail_at[0].load(Ordering::SeqCst) || n == self.ctl.fail_at[1].load(Ordering::SeqCst) {
+                injected = true;
+            }
+        }
+        self.ctl.log.lock().unwrap().push(LogEntry {
+            node: self.node.clone(),
+            method,
+            path: self.path.clone(),
+            dest: None,
+            injected,
+        });
+        if injected {
+            return Err(std::io::Error::new(std::io::ErrorKind::Other, "injected fault"));
+        }
+        Ok(())
+    }
+}
+
+impl<H: std::io::Read> std::io::Read for WrapHandle<H> {
+    fn read(&mut self, buf: &mut [u8]) -> std::io::Result<usize> {
+        self.pre("handle.read")?;
+        self.inner.read(buf)
+    }
+}
+impl<H: std::io::Write> std::io::Write for WrapHandle<H> {
+    fn write(&mut self, buf: &[u8]) -> std::io::Result<usize> {
+        self.pre("handle.write")?;
+        self.inner.write(buf)
+    }
+    fn flush(&mut self) -> std::io::Result<()> {
+        self.pre("handle.flush")?;
+        self.inner.flush()
+    }
+}
+impl<H: std::io::Seek> std::io::Seek for WrapHandle<H> {
+    fn seek(&mut self, pos: std::io::SeekFrom) -> std::io::Result<u64> {
+        self.pre("handle.seek")?;
+        self.inner.seek(pos)
+    }
+}
+
+impl Wrap {
+    fn handle<H>(&self, inner: H, path: &str) -> WrapHandle<H> {
+        WrapHandle {
+            inner,
+            node: self.node.clone(),
+            underlying: self.underlying,
+            path: path.to_string(),
+            ctl: self.ctl.clone(),
+        }
+    }
+}
+
 impl FileSystem for Wrap {
     fn read_dir(&self, path: &str) -> VfsResult<Box<dyn Iterator<Item = String> + Send>> {
         self.pre("read_dir", path, None)?;
@@ -240,15 +316,15 @@ impl FileSystem for Wrap {
     }
     fn open_file(&self, path: &str) -> VfsResult<Box<dyn SeekAndRead + Send>> {
         self.pre("open_file", path, None)?;
-        self.inner.open_file(path)
+        Ok(Box::new(self.handle(self.inner.open_file(path)?, path)))
     }
     fn create_file(&self, path: &str) -> VfsResult<Box<dyn SeekAndWrite + Send>> {
         self.pre("create_file", path, None)?;
-        self.inner.create_file(path)
+        Ok(Box::new(self.handle(self.inner.create_file(path)?, path)))
     }
     fn append_file(&self, path: &str) -> VfsResult<Box<dyn SeekAndWrite + Send>> {
         self.pre("append_file", path, None)?;
-        self.inner.append_file(path)
+        Ok(Box::new(self.handle(self.inner.append_file(path)?, path)))
     }
     fn metadata(&self, path: &str) -> VfsResult<VfsMetadata> {
         self.pre("metadata", path, None)?;
